@@ -1071,6 +1071,9 @@ func main() {
 		b.WriteString("\n")
 	}
 	b.WriteString("].\n\n")
+	b.WriteString("(* flows/inspect/templates.go fieldRefPaths: the context paths inspection treats as contact field references *)\n")
+	b.WriteString("Definition field_ref_paths_src : list (list string) := " +
+		coqList(fieldRefPaths(*repo), func(p []string) string { return coqList(p, coqStr) }) + ".\n\n")
 	b.WriteString("Definition save_result_sites : list (string * string) := " +
 		coqList(tp.doors, func(d doorSite) string { return "(" + coqStr(d.Site) + ", " + coqStr(tp.finalClass(d)) + ")" }) + ".\n")
 
@@ -1173,4 +1176,55 @@ func (p *pkgInfo) routerSaves(t string, fn *ast.FuncDecl, owner string, r *row, 
 		}
 		return true
 	})
+}
+
+// fieldRefPaths reads `var fieldRefPaths = [][]string{{...}, ...}` of flows/inspect/templates.go
+func fieldRefPaths(repo string) [][]string {
+	fset := token.NewFileSet()
+	path := filepath.Join(repo, "flows", "inspect", "templates.go")
+	f, err := parser.ParseFile(fset, path, nil, parser.SkipObjectResolution)
+	if err != nil {
+		fatal("parse %s: %v", path, err)
+	}
+	var out [][]string
+	found := false
+	for _, d := range f.Decls {
+		gd, ok := d.(*ast.GenDecl)
+		if !ok || gd.Tok != token.VAR {
+			continue
+		}
+		for _, sp := range gd.Specs {
+			vs := sp.(*ast.ValueSpec)
+			for i, id := range vs.Names {
+				if id.Name != "fieldRefPaths" || i >= len(vs.Values) {
+					continue
+				}
+				cl, ok := vs.Values[i].(*ast.CompositeLit)
+				if !ok {
+					fatal("fieldRefPaths is not a composite literal")
+				}
+				found = true
+				for _, e := range cl.Elts {
+					inner, ok := e.(*ast.CompositeLit)
+					if !ok {
+						fatal("fieldRefPaths: element is not a composite literal")
+					}
+					var p []string
+					for _, x := range inner.Elts {
+						bl, ok := x.(*ast.BasicLit)
+						if !ok || bl.Kind != token.STRING {
+							fatal("fieldRefPaths: path segment is not a string literal")
+						}
+						sv, _ := strconv.Unquote(bl.Value)
+						p = append(p, sv)
+					}
+					out = append(out, p)
+				}
+			}
+		}
+	}
+	if !found || len(out) == 0 {
+		fatal("fieldRefPaths not found in %s", path)
+	}
+	return out
 }
